@@ -48,6 +48,8 @@ def enumerate_cases(tier, seed):
         for loop in ("data", "var"):
             cases.append({"id": f"train|{m}|{loop}", "leg": "train", "model": m, "loop": loop, "x64": True, "seed": seed, "tier": tier})
     cases.append({"id": "methods", "leg": "methods", "x64": True, "seed": seed})
+    for i in range(4):
+        cases.append({"id": f"ctor|{i}", "leg": "ctor", "part": i, "nparts": 4, "x64": True, "seed": seed, "tier": tier})
     return cases
 
 
@@ -328,6 +330,16 @@ def _leg_freeze(case, add):
         left = [jax.tree_util.keystr(p) for p in trainable_paths(frozen_model) if inside(jax.tree_util.keystr(p))]
         if left:
             add(f"freeze|non_trainable-leaves-trainable|{case['model']}", f"{case['model']}: after flowjax.wrappers.non_trainable({part_name}) these leaves are still in the trainable partition: {left[:4]}")
+    # a floating NumPy leaf (eqx.tree_at with a NumPy array, a restored checkpoint): the loops train it (is_inexact_array), so
+    # non_trainable(tree) must freeze it too
+    if paths:
+        first = jax.tree_util.keystr(paths[0])
+        np_model = jax.tree_util.tree_map_with_path(lambda p_, l_: np.asarray(l_) if jax.tree_util.keystr(p_) == first else l_, model,
+                                                    is_leaf=lambda l_: isinstance(l_, W.NonTrainable))
+        tr += 1
+        left = [jax.tree_util.keystr(p) for p in trainable_paths(nt_fn(np_model))]
+        if left:
+            add(f"freeze|non_trainable-numpy-leaf|{case['model']}", f"{case['model']} with a floating NumPy leaf: after flowjax.wrappers.non_trainable(model) these leaves are still in the partition the training loops update: {left[:3]}")
     # a whole sub-tree (a module, with its python-int shapes and callables) handed to NonTrainable directly: same values as
     # the unfrozen model eagerly AND when traced, exact-zero gradients inside, the rest still differentiable
     for attr in ("bijection", "base_dist"):
@@ -535,6 +547,65 @@ def _leg_methods(case, add):
     return tr, tr, {"methods_compared": tr}
 
 
+def _count_nt(tree):
+    import jax
+
+    from flowjax import wrappers as W
+
+    return sum(isinstance(l, W.NonTrainable) for l in jax.tree_util.tree_leaves(tree, is_leaf=lambda x: isinstance(x, W.NonTrainable)))
+
+
+def _leg_ctor(case, add):
+    """Every combinator constructor (and the coupling / autoregressive layers' transformer argument) handed children whose
+    leaves are frozen must keep the NonTrainable markers: same number of NonTrainable nodes as the children had, nothing of
+    them in the trainable partition, exactly zero gradient on them."""
+    import equinox as eqx
+    import jax
+    import jax.numpy as jnp
+
+    from flowjax.wrappers import non_trainable
+    from mc import grammar as g
+
+    specs, _ = g.enumerate_exprs(case.get("tier", "quick"))
+    specs = g._one_per_kind([s for s in specs if g.info(s).depth == 1 and not (s["k"] == "Vmap" and s.get("mode") in ("mixed", "axis1"))])
+    tr = 0
+    for si, s in enumerate(specs):
+        if si % case["nparts"] != case["part"]:
+            continue
+        kids = s["c"] if isinstance(s["c"], list) else [s["c"]]
+        tag = g._cls(s) + (f"[{s.get('mode')}]" if s["k"] == "Vmap" else "")
+        g.LEAF_HOOK = non_trainable
+        try:
+            expected = sum(_count_nt(g.build(k_, 0, 1, case["seed"])) for k_ in kids)
+            b = g.build(s, 0, 1, case["seed"])
+        except Exception as e:
+            add(f"ctor|raises|{s['k']}|{type(e).__name__}", f"{tag}: constructing from children with frozen leaves raised {type(e).__name__}: {str(e)[:160]}")
+            continue
+        finally:
+            g.LEAF_HOOK = None
+        tr += 1
+        got = _count_nt(b)
+        if expected and got != expected:
+            add(f"ctor|markers-lost|{s['k']}" + (f"[{s.get('mode')}]" if s["k"] == "Vmap" else ""),
+                f"{tag}: the children carried {expected} NonTrainable leaves, the constructed {s['k']} has {got}")
+            continue
+        ii = g.info(s)
+        if not ii.fwd or not expected:
+            continue
+        x = jnp.full(ii.shape, 0.37)
+        c = None if ii.cond_shape is None else jnp.full(ii.cond_shape, -0.6)
+        p_, st_ = eqx.partition(b, eqx.is_inexact_array)
+        try:
+            gr = eqx.filter_grad(lambda p: jnp.sum(eqx.combine(p, st_).transform(x, c)))(p_)
+        except Exception:
+            continue
+        for path, leaf in jax.tree_util.tree_leaves_with_path(gr):
+            if ".tree" in jax.tree_util.keystr(path) and np.any(np.asarray(leaf) != 0):
+                add(f"ctor|frozen-grad|{s['k']}", f"{tag}: frozen leaf {jax.tree_util.keystr(path)} receives a gradient")
+                break
+    return tr, tr, {"constructors": tr}
+
+
 def run_case(case):
     viols, seen = [], {}
 
@@ -543,7 +614,7 @@ def run_case(case):
         if seen[sig] <= 1:
             viols.append({"sig": "C12|" + sig, "msg": msg, "detail": {k: v for k, v in case.items() if k != "id"}})
 
-    tr, nt, sample = {"trees": _leg_trees, "freeze": _leg_freeze, "train": _leg_train, "methods": _leg_methods}[case["leg"]](case, add)
+    tr, nt, sample = {"trees": _leg_trees, "freeze": _leg_freeze, "train": _leg_train, "methods": _leg_methods, "ctor": _leg_ctor}[case["leg"]](case, add)
     for v in viols:
         n = seen[v["sig"][4:]]
         if n > 1:
